@@ -83,12 +83,22 @@ Definition is_write (x : op * Z) : bool := match okind (fst x) with KWrite => tr
 Definition witems (lin : list (op * Z)) : list item :=
   map (fun x => (oid (fst x), snd x)) (filter is_write lin).
 Definition prefix {A} (a b : list A) : Prop := exists c, b = a ++ c.
-(* ... and every acknowledged command has been applied by some replica (is in a recorded replica state) *)
+(* ... every acknowledged command has been applied by some replica (is in a recorded replica state), and a verified
+   read did not observe more commands than the longest recorded replica state holds (replica states only grow) *)
+Fixpoint longest (acc : list item) (l : list (list item)) : list item :=
+  match l with
+  | [] => acc
+  | s :: r => if (length acc <? length s)%nat then longest s r else longest acc r
+  end.
+Definition agreed_log (h : history) : list item := longest [] (hstates h).
+
 Definition replicated_linearizable (h : history) : Prop :=
   exists lin, linearization h lin /\
     (forall S, In S (hstates h) -> prefix S (witems lin)) /\
     (forall o, In o (hops h) -> okind o = KWrite -> oout o = OOk ->
-               exists S, In S (hstates h) /\ In (oid o) (map fst S)).
+               exists S, In S (hstates h) /\ In (oid o) (map fst S)) /\
+    (forall o, In o (hops h) -> okind o = KRead -> oout o = OOk ->
+               ores1 o <= Z.of_nat (length (agreed_log h))).
 
 (* ---------- executable checker ---------- *)
 Definition kind_eqb (a b : kind) : bool :=
@@ -147,13 +157,7 @@ Definition check_lin (h : history) (lin : list (op * Z)) : bool :=
   replay_ok [] lin &&
   forallb (fun S => prefixb S (witems lin)) (hstates h).
 
-(* the witness: the agreed log = the longest recorded replica state *)
-Fixpoint longest (acc : list item) (l : list (list item)) : list item :=
-  match l with
-  | [] => acc
-  | s :: r => if (length acc <? length s)%nat then longest s r else longest acc r
-  end.
-Definition agreed_log (h : history) : list item := longest [] (hstates h).
+(* the witness: the agreed log = the longest recorded replica state (agreed_log above) *)
 
 Definition find_write (ops : list op) (id : Z) : option op :=
   find (fun o => isW o && (oid o =? id)) ops.
